@@ -1,3 +1,5 @@
+module L = Stdlib.List
+module String = Stdlib.String
 (* Shared helpers of the hand-written driver: PRNG, conversions between OCaml ints / decimal
    strings and the extracted Coq numbers, hex, harness subprocess. Trusted for the tie only. *)
 
@@ -14,7 +16,7 @@ let rand_int (r : rng) (n : int) : int =
   if n <= 0 then 0 else Int64.to_int (Int64.unsigned_rem (next64 r) (Int64.of_int n))
 let rand_bool r = rand_int r 2 = 0
 let chance r pct = rand_int r 100 < pct
-let pick r (l : 'a list) : 'a = List.nth l (rand_int r (List.length l))
+let pick r (l : 'a list) : 'a = L.nth l (rand_int r (L.length l))
 let pick_arr r (a : 'a array) : 'a = a.(rand_int r (Array.length a))
 
 (* ---- Coq numbers <-> decimal strings (arbitrary size, via simple bignum on int lists) ---- *)
@@ -28,19 +30,19 @@ let rec pos_bits (p : positive) : bool list =
 let big_base = 1_000_000_000
 let big_of_int (n : int) : int list =
   let rec go n = if n = 0 then [] else (n mod big_base) :: go (n / big_base) in go n
-let rec big_norm l = match List.rev l with 0 :: r -> big_norm (List.rev r) | _ -> l
+let rec big_norm l = match L.rev l with 0 :: r -> big_norm (L.rev r) | _ -> l
 let big_double_plus (l : int list) (b : int) : int list =
   let rec go l c = match l with
     | [] -> if c = 0 then [] else [c]
     | x :: r -> let v = 2 * x + c in (v mod big_base) :: go r (v / big_base) in
   go l b
 let big_to_string (l : int list) : string =
-  match List.rev (big_norm l) with
+  match L.rev (big_norm l) with
   | [] -> "0"
-  | hd :: tl -> String.concat "" (string_of_int hd :: List.map (Printf.sprintf "%09d") tl)
+  | hd :: tl -> String.concat "" (string_of_int hd :: L.map (Printf.sprintf "%09d") tl)
 let big_divmod2 (l : int list) : int list * int =
   (* l little endian; divide by 2 *)
-  let rl = List.rev l in
+  let rl = L.rev l in
   let rec go rl carry acc = match rl with
     | [] -> (acc, carry)
     | x :: r -> let v = carry * big_base + x in go r (v mod 2) ((v / 2) :: acc) in
@@ -52,11 +54,11 @@ let big_of_string (s : string) : int list =
     if hi <= 0 then acc
     else let lo = max 0 (hi - 9) in
       go lo (int_of_string (String.sub s lo (hi - lo)) :: acc) in
-  big_norm (List.rev (go n []))
+  big_norm (L.rev (go n []))
 
 let string_of_pos (p : positive) : string =
-  let bits = List.rev (pos_bits p) in (* most significant first *)
-  big_to_string (List.fold_left (fun acc b -> big_double_plus acc (if b then 1 else 0)) [] bits)
+  let bits = L.rev (pos_bits p) in (* most significant first *)
+  big_to_string (L.fold_left (fun acc b -> big_double_plus acc (if b then 1 else 0)) [] bits)
 let string_of_n (n : coq_N) : string = match n with N0 -> "0" | Npos p -> string_of_pos p
 
 let rec pos_of_big (l : int list) : positive =
@@ -75,9 +77,9 @@ let int_of_n (n : coq_N) : int = match n with N0 -> 0 | Npos p -> int_of_pos p
 
 (* ---- bytes (list of N) <-> hex token x.. ---- *)
 let hex_of_bytes (l : coq_N list) : string =
-  let b = Buffer.create (1 + 2 * List.length l) in
+  let b = Buffer.create (1 + 2 * L.length l) in
   Buffer.add_char b 'x';
-  List.iter (fun n -> Buffer.add_string b (Printf.sprintf "%02x" (int_of_n n))) l;
+  L.iter (fun n -> Buffer.add_string b (Printf.sprintf "%02x" (int_of_n n))) l;
   Buffer.contents b
 let bytes_of_hex (s : string) : coq_N list =
   let n = String.length s in
@@ -85,7 +87,7 @@ let bytes_of_hex (s : string) : coq_N list =
   let rec go i acc = if i < 1 then acc else go (i - 2) (n_of_int (int_of_string ("0x" ^ String.sub s i 2)) :: acc) in
   go (n - 2) []
 let bytes_of_string (s : string) : coq_N list =
-  List.init (String.length s) (fun i -> n_of_int (Char.code s.[i]))
+  L.init (String.length s) (fun i -> n_of_int (Char.code s.[i]))
 
 (* ---- harness subprocess ---- *)
 type harness = { hin : in_channel; hout : out_channel }
@@ -97,7 +99,7 @@ let ask (h : harness) (cmd : string) : string =
 let harness_stop (h : harness) = ignore (Unix.close_process (h.hin, h.hout))
 
 let split_ws (s : string) : string list =
-  List.filter (fun x -> x <> "") (String.split_on_char ' ' s)
+  L.filter (fun x -> x <> "") (String.split_on_char ' ' s)
 
 (* ---- JSON output helpers ---- *)
 let json_escape (s : string) : string =
@@ -109,12 +111,12 @@ let json_escape (s : string) : string =
   Buffer.contents b
 let jstr s = "\"" ^ json_escape s ^ "\""
 let jlist (l : string list) = "[" ^ String.concat "," l ^ "]"
-let jobj (l : (string * string) list) = "{" ^ String.concat "," (List.map (fun (k, v) -> jstr k ^ ":" ^ v) l) ^ "}"
+let jobj (l : (string * string) list) = "{" ^ String.concat "," (L.map (fun (k, v) -> jstr k ^ ":" ^ v) l) ^ "}"
 
 (* frequency table *)
 let bump (tbl : (string, int) Hashtbl.t) (k : string) =
   Hashtbl.replace tbl k (1 + (try Hashtbl.find tbl k with Not_found -> 0))
 let jtable (tbl : (string, int) Hashtbl.t) : string =
   let l = Hashtbl.fold (fun k v acc -> (k, v) :: acc) tbl [] in
-  let l = List.sort compare l in
-  jobj (List.map (fun (k, v) -> (k, string_of_int v)) l)
+  let l = L.sort compare l in
+  jobj (L.map (fun (k, v) -> (k, string_of_int v)) l)
